@@ -1,7 +1,7 @@
 PROFILE = {"weights": [2, 3, 1, 1, 2, 0, 2, 14, 0, 1], "act": {"tick": 8, "feed": 14, "connect": 4, "connect_result": 6, "peer_close": 1.5, "peer_reset": 1.5},
            "send": 12}
 ASSUME = ["the selection callback is the harness's (it records the offered peers and returns the first or last as the scenario says)",
-          "send_request is called from virtual application threads; hop-by-hop ids drawn on different connections by one application are distinct (independent random starts)"]
+          "send_request is called from virtual application threads; hop-by-hop ids drawn on different connections by ONE application are distinct (its waiters are keyed by hop-by-hop id alone); different applications may draw equal ids on different connections"]
 
 
 def plans(tier):
@@ -16,4 +16,8 @@ def plans(tier):
 def enum_plans(tier):
     th = tier == "thorough"
     # one connection: requests sent with a short timeout; answers in time, late (after the timeout) and repeated
-    return [dict(cfg="A", depth=7 if th else 6, maxtime=3, alpha=["cerok", "send1", "sans"], faults=False, maxconn=1)]
+    from .c09_plan import two_ready_prefix
+    return [dict(cfg="A", depth=7 if th else 6, maxtime=3, alpha=["cerok", "send1", "sans"], faults=False, maxconn=1),
+            # two applications each send over their own peer's connection; both connections draw the same hop-by-hop id;
+            # answers in every order, also repeated
+            dict(cfg="TWOSAME", depth=5 if th else 4, maxtime=0, alpha=["send1", "sans"], faults=False, maxconn=2, prefix=two_ready_prefix())]
